@@ -7,7 +7,6 @@ KEYMAP = {
     'more-read-than-written': ['C01'], 'stream-from-nowhere': ['C01', 'C09'], 'empty-chunk': ['C01'],
     'chunk-exceeds-max-length': ['C01'], 'write-returned-bad-count': ['C05', 'C01'],
     'workload-incomplete': ['C02'], 'handshake-never-completed': ['C02'], 'connection-lost-under-fair-loss': ['C02'],
-    'wedge': ['C02'],
     'frames-processed-exceed-frames-sent': ['C04'], 'forged-': ['C04'], 'hostile-': ['C03'],
     'amplification-limit-exceeded': ['C07'], 'stateless-reset-': ['C07'], 'short-initial-': ['C07'],
     'connection-lost-reported-twice': ['C08'], 'drained-notified-twice': ['C08'], 'output-after-drained': ['C08', 'C20'],
@@ -20,7 +19,7 @@ KEYMAP = {
     'determinism-': ['C20'], 'shift-': ['C20'], 'spurious-': ['C20'], 'timeout-settle': ['C20'],
     'zero-rtt-': ['C17'],
     'routing-': ['C09'], 'isolation-': ['C09'],
-    'flow-': ['C05', 'C06'], 'credit-': ['C05'], 'recv-limit-': ['C06'],
+    'flow-': ['C05', 'C06'],
     'panic-in-': ['*'],
 }
 
